@@ -15,6 +15,8 @@ mod c12;
 mod c14;
 mod c17;
 mod keys;
+mod sign;
+mod c01;
 mod codecref;
 mod ops;
 mod ops2;
@@ -105,6 +107,9 @@ fn oracle(prop: &str, op: &[&str], out: &str) -> Verdict {
         "C02" => c02::oracle(op, out),
         "C09" => c09::oracle(op, out),
         "C17" => c17::oracle(op, out),
+        "C01" => c01::oracle_c01(op, out),
+        "C08" => c01::oracle_c08(op, out),
+        "C10" => c01::oracle_c10(op, out),
         "C04" => c04::oracle_c04(op, out),
         "C05" => c04::oracle_c05(op, out),
         "C15" => c04::oracle_c15(op, out),
@@ -123,6 +128,9 @@ fn generate(prop: &str, tier: &str, rng: &mut util::Prng) -> Vec<Case> {
         "C02" => c02::generate(tier, rng),
         "C09" => c09::generate(tier, rng),
         "C17" => c17::generate(tier, rng),
+        "C01" => c01::generate_c01(tier, rng),
+        "C08" => c01::generate_c08(tier, rng),
+        "C10" => c01::generate_c10(tier, rng),
         "C04" => c04::generate_c04(tier, rng),
         "C05" => c04::generate_c05(tier, rng),
         "C15" => c04::generate_c15(tier, rng),
